@@ -288,12 +288,18 @@ pub fn gen_files(s: &mut Src) -> Result<(Vec<(String, String)>, bool), Fail> {
     pc.gen.max_members = 3;
     let p = gen::project(s, &pc);
     // layout: mostly single spaces (everything on one line), sometimes general
-    let case = if s.chance(3, 4) {
+    let mut case = if s.chance(3, 4) {
         let mut z = Src::new(&[]);
         ProjCase::from_project(p, &mut z, &one_line_layout())?
     } else {
         ProjCase::from_project(p, s, &crate::projcase::calm_layout())?
     };
+    // a file that keeps its tree but carries a recovered syntax error / an overflowing code:
+    // syntax and validation diagnostics then share one list
+    if s.chance(1, 3) {
+        let i = s.below(case.docs.len());
+        case.damage(i);
+    }
     let mut files = case.files();
     // duplicate keys / ambiguity present?
     let mut special = case.keys.values().any(|k| k.len() > 1);
